@@ -1,0 +1,84 @@
+// SPDX-FileCopyrightText: 2026 The Pion community <https://pion.ly>
+// SPDX-License-Identifier: MIT
+
+//go:build verif
+
+package ice
+
+import (
+	"github.com/pion/ice/v4/internal/taskloop"
+	"github.com/pion/ice/v4/internal/verifhook"
+)
+
+// This file exists only with the verif build tag. It re-exports the task loop
+// and the callback notifier (internal / unexported) so that an external
+// verification harness can drive the real code through the yield points.
+
+// VerifSetYield installs (or, with nil, removes) the function called at every yield point.
+func VerifSetYield(f func(string)) { verifhook.Set(f) }
+
+// VerifLoop is the real task loop.
+type VerifLoop = taskloop.Loop
+
+// VerifErrLoopClosed is the error Run returns on a closed loop.
+var VerifErrLoopClosed = taskloop.ErrClosed //nolint:gochecknoglobals,errname
+
+// VerifNewLoop creates and starts a real task loop.
+func VerifNewLoop(onClose func()) *VerifLoop { return taskloop.New(onClose) }
+
+// VerifNotifier wraps a real handlerNotifier with all three streams wired.
+type VerifNotifier struct{ h *handlerNotifier }
+
+// VerifNewNotifier creates a notifier the way newAgentWithConfig does, with harness handlers.
+func VerifNewNotifier(
+	onState func(ConnectionState), onCandidate func(Candidate), onPair func(*CandidatePair),
+) *VerifNotifier {
+	return &VerifNotifier{h: &handlerNotifier{
+		connectionStateFunc: onState,
+		candidateFunc:       onCandidate,
+		candidatePairFunc:   onPair,
+		done:                make(chan struct{}),
+	}}
+}
+
+// EnqueueConnectionState forwards to the real notifier.
+func (n *VerifNotifier) EnqueueConnectionState(s ConnectionState) { n.h.EnqueueConnectionState(s) }
+
+// EnqueueCandidate forwards to the real notifier.
+func (n *VerifNotifier) EnqueueCandidate(c Candidate) { n.h.EnqueueCandidate(c) }
+
+// EnqueueSelectedCandidatePair forwards to the real notifier.
+func (n *VerifNotifier) EnqueueSelectedCandidatePair(p *CandidatePair) {
+	n.h.EnqueueSelectedCandidatePair(p)
+}
+
+// Close forwards to the real notifier.
+func (n *VerifNotifier) Close(graceful bool) { n.h.Close(graceful) }
+
+// VerifNotifierState is the bookkeeping of one stream, read under the notifier's lock.
+type VerifNotifierState struct {
+	QLen    int  `json:"qlen"`
+	Running bool `json:"running"`
+	Closed  bool `json:"closed"`
+}
+
+// State reads one stream ("cs", "cand", "pair") under the lock.
+func (n *VerifNotifier) State(stream string) (s VerifNotifierState) {
+	n.h.Lock()
+	defer n.h.Unlock()
+	select {
+	case <-n.h.done:
+		s.Closed = true
+	default:
+	}
+	switch stream {
+	case "cs":
+		s.QLen, s.Running = len(n.h.connectionStates), n.h.runningConnectionStates
+	case "cand":
+		s.QLen, s.Running = len(n.h.candidates), n.h.runningCandidates
+	default:
+		s.QLen, s.Running = len(n.h.selectedCandidatePairs), n.h.runningCandidatePairs
+	}
+
+	return s
+}
